@@ -8,9 +8,11 @@ An invariant is described by: name, Lean definition (a predicate `Env → St →
 tactic for the obligations at `modify` sites, and optional overrides of the base lemma of a
 primitive (e.g. `emitInd`, which is only allowed for enabled indications).
 """
+import re
 from pathlib import Path
 
-OUT = Path(__file__).resolve().parent.parent / "lean" / "CfdpVerif" / "Lemmas"
+import os
+OUT = Path(os.environ.get("GEN_OUT") or (Path(__file__).resolve().parent.parent / "lean" / "CfdpVerif" / "Lemmas"))
 
 # (lemma name, binder string, term, unfold list, callee lemmas, extra) ; `r`/`hr` = nested call
 DEST = [
@@ -193,7 +195,7 @@ def gen(side: str, mod: str, inv: str, sfx: str, inv_def: str, close: str, overr
          f"namespace Cfdp.{side}.{mod}", f"open Cfdp Cfdp.{side}", "", inv_def, "",
          f"local macro \"close_inv\" : tactic => `(tactic| all_goals (try ({close})))", ""]
 
-    pnames = [w.strip("(){}") for w in params.replace(":", " : ").split() if w.startswith("(") or w.startswith("{")]
+    pnames = re.findall(r"[({](\w+)\s*:", params)
     pargs = "".join(" " + x for x in pnames)
     invp = f"{inv} env{pargs}"
 
@@ -342,6 +344,44 @@ def main():
         "simp_all [FsEq]", {}, {},
         "Source handler: NO method changes the filestore (C16): the sender only reads\n"
         "(`file_exists`, `file_size`, `read_data`, `calculate_checksum`).", params="(F : Fs)")
+
+    FLTS_DEF = '''/-- the callback kind is the handler code the table `T` has for the condition; or it is an abandon
+callback (a fault declared while the cancellation exchange is in progress abandons, whatever the
+table says: `C14_*_fault_in_cancel_exchange` state the exact condition) -/
+def Consistent (T : List (Nat × Nat)) (cb : FaultCb) : Prop :=
+  T.lookup cb.cond = some cb.kind ∨ cb.kind = fhAbandon
+
+/-- the table is `T` and every fault callback delivered so far is consistent with it -/
+def FltsOk (_ : Env) (T : List (Nat × Nat)) (s : %s) : Prop :=
+  s.faults = T ∧ ∀ cb ∈ s.flts, Consistent T cb
+'''
+    DF_DEST = '''open Std.Do in
+set_option mvcgen.warning false in
+theorem declareFault_c (env : Env) (T : List (Nat × Nat)) (c : Nat) :
+    Preserves (FltsOk env T) (declareFault c) := by
+  apply preserves_of_triple
+  mvcgen [declareFault, noticeOfCancellation, abandonTransaction, resetInternal]
+  all_goals (simp +zetaDelta only [FltsOk, Consistent, List.mem_append, List.mem_singleton] at *; grind)'''
+    DF_SRC = '''open Std.Do in
+set_option mvcgen.warning false in
+theorem declareFault_c (env : Env) (T : List (Nat × Nat)) (c : Nat) :
+    Preserves (FltsOk env T) (declareFault env c) := by
+  apply preserves_of_triple
+  have h1 := triple_of_preserves (noticeOfCancellation_c env T c)
+  mvcgen [declareFault, abandonTransaction, resetInternal, h1]
+  all_goals (simp +zetaDelta only [FltsOk, Consistent, List.mem_append, List.mem_singleton] at *; grind)'''
+    close_f = "first | (simp_all [FltsOk, Consistent]; done) | (simp_all [FltsOk, Consistent]; grind)"
+    files["InvDestFaults.lean"] = gen(
+        "Dest", "Faults", "FltsOk", "c", FLTS_DEF % "DestSt", close_f, {"declareFault": DF_DEST}, {},
+        "Destination handler: every fault callback ever delivered is of the kind the fault handler table\n"
+        "configures for its condition (or the abandon of the cancellation-exchange rule) — preserved by every\n"
+        "method, hence by every call sequence (C14).",
+        extra_imports="import CfdpVerif.Lemmas.StdDo", params="(T : List (Nat × Nat))")
+    files["InvSourceFaults.lean"] = gen(
+        "Source", "Faults", "FltsOk", "c", FLTS_DEF % "SrcSt", close_f, {"declareFault": DF_SRC}, {},
+        "Source handler: every fault callback ever delivered is of the kind the fault handler table configures\n"
+        "for its condition (C14).",
+        extra_imports="import CfdpVerif.Lemmas.StdDo", params="(T : List (Nat × Nat))")
     for n, t in files.items():
         (OUT / n).write_text(t)
         print("wrote", n)
